@@ -35,6 +35,12 @@ def dump (s : State) : String := Id.run do
   out := out ++ " | kw"
   for a in List.range nNames do
     out := out ++ s!" {keywordCount s a}"
+  -- keywords that name no entity (proper prefixes of names, a name with a suffix, the empty keyword): tags outside 0..nNames
+  out := out ++ " | none"
+  for a in List.range 5 do
+    let c := keywordCount s (nNames + a)
+    let f := match byName s (nNames + a) 0 with | some _ => "X" | none => "-"
+    out := out ++ s!" {c}{f}"
   out := out ++ " | by"
   for a in List.range nNames do
     for st in List.range (n + 1) do
